@@ -423,19 +423,29 @@ def check_tool_paths(ctx, tool):
            'else the token\'s own user/project' if bad_target is None else
            bad_target[1] + ' (path: %s)' % bad_target[0].cond_text()[-200:])
     # flatten keeps every leaf
-    tfl = Table(prog, flat)
+    # (in flatten itself or in the helper that walks the mapping for it)
+    workers = [g for g in [flat] + [x for x in prog.region(flat).values()
+                                    if x is not flat and x.module is
+                                    flat.module]
+               if any(isinstance(n_, ast.For) and method_call(n_.iter, 'items')
+                      for n_ in walk_no_nested(g.node)
+                      if isinstance(n_, ast.For) and isinstance(
+                          n_.iter, ast.Call))]
     dropped = None
     n = 0
-    for p in tfl.paths:
-        if not any(c.kind == 'loop' and c.pol for c in p.conds):
-            continue
-        n += 1
-        adds = [e for e in p.events if e.kind == 'call' and method_call(
-            e.node) and method_call(e.node)[1] in ('append', 'extend',
-                                                   'update', '__setitem__')]
-        stores = [e for e in p.events if e.kind == 'store']
-        if not adds and not stores:
-            dropped = p
+    for g in workers:
+        tfl = Table(prog, g)
+        for p in tfl.paths:
+            if not any(c.kind == 'loop' and c.pol for c in p.conds):
+                continue
+            n += 1
+            adds = [e for e in p.events if e.kind == 'call' and method_call(
+                e.node) and method_call(e.node)[1] in (
+                    'append', 'extend', 'update', '__setitem__')]
+            stores = [e for e in p.events if e.kind == 'store']
+            yields = [e for e in p.events if e.kind == 'yield']
+            if not adds and not stores and not yields:
+                dropped = p
     ctx.ob('C19.TARGET', dropped is None and n > 0, ctx.where(
         flat.module, flat.node), flat.qual,
         'flatten keeps every entry (%d element paths)' % n,
